@@ -857,7 +857,15 @@ class ReadParquetPyarrowFS(ReadParquet):
     def _get_lengths(self):
         # TODO: Filters that only filter partition_expr can be used as well
         if not self.filters:
-            return tuple(stats["num_rows"] for stats in self.aggregated_statistics)
+            # Statistics come in file-listing order; partitions follow the
+            # (possibly re-sorted) fragments and an optional partition subset
+            lengths = [stats["num_rows"] for stats in self.aggregated_statistics]
+            sort_index = self._fragment_sort_index()
+            if sort_index is not None:
+                lengths = [lengths[i] for i in sort_index]
+            if self._filtered:
+                lengths = [lengths[i] for i in self._partitions]
+            return tuple(lengths)
 
     @cached_property
     def _dataset_info(self):
